@@ -248,8 +248,10 @@ class Run:
     # ---- model checking
     def mc(self, module, cfg, spec_dir="mc", env=None, workers=8, timeout=900, heap="6g",
            need_actions=(), allow_unused=()):
+        # the TLC scratch directories are private to this run: two properties may check the same module concurrently
         r = run_tlc(os.path.join(SPEC, spec_dir), module, cfg, env=env, workers=workers,
-                    timeout=timeout, heap=heap)
+                    timeout=timeout, heap=heap,
+                    tag="%s-%s-%s-%s-%d" % (self.pid, self.tier, module, os.path.splitext(cfg)[0], os.getpid()))
         self.states += r["distinct"]
         self.transitions += r["generated"]
         self.tlc_runs.append({k: r[k] for k in ("module", "cfg", "generated", "distinct", "depth", "wall_s", "actions")})
